@@ -136,10 +136,12 @@ impl Prop for C10 {
 			None => return OpRes::Skipped("no sender address".into()),
 		};
 		let so = ex.world.owner(sender);
+		// the sender address is optional: recipients alone must still mean "encrypted"
+		let no_sender = a["no_sender"].as_bool().unwrap_or(false) && encrypted;
 		let text = match so.create_slatepack_message(
 			ex.world.mask(sender).as_ref(),
 			&slate,
-			Some(sender_idx),
+			if no_sender { None } else { Some(sender_idx) },
 			addrs.clone(),
 		) {
 			Ok(t) => t,
@@ -196,7 +198,8 @@ impl Prop for C10 {
 			if encrypted {
 				match ex.world.owner(*w).decode_slatepack_message(ex.world.mask(*w).as_ref(), text.clone(), vec![*i]) {
 					Ok(sp) => {
-						if sp.sender.as_ref().map(|s| s.pub_key) != Some(sender_addr.pub_key) {
+						let want = if no_sender { None } else { Some(sender_addr.pub_key) };
+						if sp.sender.as_ref().map(|s| s.pub_key) != want {
 							problems.push(("sender_address_wrong".into(), format!("recipient {}:{} sees sender {:?}", w, i, sp.sender.map(|s| format!("{}", s)))));
 						}
 					}
@@ -256,6 +259,25 @@ impl Prop for C10 {
 				let sa = format!("{}", sender_addr);
 				if find(&raw, sa.as_bytes()) || find(text.as_bytes(), sa.as_bytes()) || find(&raw, sender_addr.pub_key.as_bytes()) {
 					problems.push(("sender_address_in_clear".into(), "the sender's address appears in the encoded message".into()));
+				}
+				// the JSON rendering of the same slatepack (the file adapter can write it,
+				// Display prints it) is an encoded form too
+				if !no_sender {
+					let jp = Slatepacker::new(SlatepackerArgs {
+						sender: Some(sender_addr.clone()),
+						recipients: addrs.clone(),
+						dec_key: None,
+					});
+					if let Ok(sp) = jp.create_slatepack(&slate) {
+						if let Ok(js) = serde_json::to_string(&sp) {
+							if find(js.as_bytes(), sa.as_bytes()) {
+								problems.push((
+									"sender_address_in_clear:json_form".into(),
+									"the JSON form of the encrypted slatepack shows the sender's address".into(),
+								));
+							}
+						}
+					}
 				}
 				// (d2) active tampering with the encrypted payload, checksum recomputed
 				if let Ok(spb) = byte_ser::from_bytes::<SlatepackBin>(&raw) {
@@ -338,6 +360,7 @@ impl Prop for C10 {
 			args: json!({
 				"sender": sender,
 				"sender_idx": run.rng.below(3),
+				"no_sender": run.rng.chance(1, 4),
 				"src": run.rng.below(1000),
 				"recipients": recips.iter().map(|(w, i)| json!([w, i])).collect::<Vec<_>>(),
 				"edits": if run.thorough { 40 } else { 16 },
